@@ -226,6 +226,9 @@ func feed(c Case, evs []et.Event, pauses []int, res *pbt.Result) runOut {
 				// a session's end depends on later rows of the key; not used for barriers
 			default:
 				ws := windowsOf(c, e.TS)
+				if len(ws) == 0 {
+					continue // slide > size: the row lies in a gap between windows and is never delivered
+				}
 				first := ws[len(ws)-1]
 				if c.Kind == "tumbling" {
 					first = ws[0]
@@ -237,14 +240,66 @@ func feed(c Case, evs []et.Event, pauses []int, res *pbt.Result) runOut {
 		}
 		return m
 	}
+	// sliding: every interval of an accepted row that ended at or before the watermark after evs[:upto] - an interval
+	// exists from the aligned start of the earliest accepted row on (the engine aligns its first window to it)
+	type bpair struct {
+		id int
+		ws int64
+	}
+	duePairsAt := func(upto int) []bpair {
+		if c.Kind != "sliding" || upto == 0 {
+			return nil
+		}
+		wm := arr[upto-1].WM
+		minAcc := int64(-1)
+		for j := 0; j < upto; j++ {
+			if evs[j].Garbage == "" && !arr[j].Late && (minAcc < 0 || evs[j].TS < minAcc) {
+				minAcc = evs[j].TS
+			}
+		}
+		if minAcc < 0 {
+			return nil
+		}
+		s0 := minAcc / c.SlideMs * c.SlideMs
+		var out []bpair
+		for j := 0; j < upto; j++ {
+			if evs[j].Garbage != "" || arr[j].Late {
+				continue
+			}
+			for _, ws := range windowsOf(c, evs[j].TS) {
+				if ws >= s0 && ws+c.SizeMs <= wm {
+					out = append(out, bpair{evs[j].ID, ws})
+				}
+			}
+		}
+		return out
+	}
 	for i, e := range all {
 		if c.Barrier && i < len(evs) && e.Garbage == "" && arr[i].Late {
 			need := dueIDs(i)
+			needPairs := duePairsAt(i)
 			in.WaitFor(pbt.Wait(3*time.Second), func(ds []run.Delivery) bool {
 				seen := et.SeenIDs(ds)
 				for id := range need {
 					if !seen[id] {
 						return false
+					}
+				}
+				if len(needPairs) > 0 {
+					got := map[bpair]bool{}
+					for _, d := range ds {
+						for _, r := range d.Rows {
+							ws, _ := et.MsOf(r["ws"])
+							ids, _ := et.IDs(r["ids"])
+							for _, id := range ids {
+								got[bpair{id, ws}] = true
+							}
+						}
+					}
+					for _, p := range needPairs {
+						if !got[p] {
+							return false
+						}
 					}
 				}
 				return true
